@@ -37,6 +37,7 @@ type c16Case struct {
 	Stream  int     `json:"stream_ms"` // virtual time the node's NewStream calls take
 	Resets  int     `json:"resets"`    // position "respawning": how often X resets the node's stream before the moment
 	Burst   bool    `json:"burst"`     // the node publishes a burst (and to its fanout topics) immediately before the moment
+	Policy  int     `json:"policy"`    // signature policy of the node: 0 StrictSign (default), 1 LaxSign, 2 LaxNoSign
 	Pre     []c16Op `json:"pre"`
 	Post    []c16Op `json:"post"`
 }
@@ -65,7 +66,8 @@ func c16Gen(rt *rapid.T) c16Case {
 	c.DelayMs = rapid.IntRange(0, 12*c.Lat[0]+5+c.Stream).Draw(rt, "delay")
 	c.Resets = rapid.IntRange(1, 3).Draw(rt, "resets")
 	c.Burst = rapid.Bool().Draw(rt, "burst")
-	kinds := []string{"xpub", "xpub", "ypubx", "ypubx", "ypub", "npub", "xsub", "xgraft", "wait", "wait", "xreconnect", "xopen", "xslow", "xresetin", "blapi", "bldirect", "nfan", "nfan", "nburst"}
+	c.Policy = rapid.SampledFrom([]int{0, 0, 1, 2}).Draw(rt, "policy")
+	kinds := []string{"xpub", "xpub", "ypubx", "ypubx", "ypubxu", "ypubxu", "ypub", "npub", "xsub", "xgraft", "wait", "wait", "xreconnect", "xopen", "xslow", "xresetin", "blapi", "bldirect", "nfan", "nfan", "nburst"}
 	gen := func(label string, max int) []c16Op {
 		var out []c16Op
 		for i := 0; i < rapid.IntRange(0, max).Draw(rt, label); i++ {
@@ -133,7 +135,15 @@ func c16RunInBubble(t *testing.T, c c16Case, res *vfResult) {
 		s.nodes[c16N].psHost = &vfSlowStreamHost{Host: s.hosts[c16N], delay: time.Duration(c.Stream) * time.Millisecond}
 		res.label("slow-stream-negotiation")
 	}
-	if err := s.start(c16N, c.Router, WithBlacklist(bl), WithDefaultValidator(slow)); err != nil {
+	nopts := []Option{WithBlacklist(bl), WithDefaultValidator(slow)}
+	switch c.Policy {
+	case 1:
+		nopts = append(nopts, WithMessageSignaturePolicy(LaxSign))
+	case 2:
+		nopts = append(nopts, WithMessageSignaturePolicy(LaxNoSign))
+	}
+	res.label(fmt.Sprintf("policy:%d", c.Policy))
+	if err := s.start(c16N, c.Router, nopts...); err != nil {
 		res.Inconclusive = err.Error()
 		return
 	}
@@ -226,6 +236,13 @@ func c16RunInBubble(t *testing.T, c c16Case, res *vfResult) {
 			m, data := mk(xid, "ypubx", op.T)
 			if Y.send(c16N, &pb.RPC{Publish: []*pb.Message{m}}) == nil && blacklisted {
 				tagged[data] = "authored by the blacklisted peer, forwarded by an honest peer after the moment"
+			}
+		case "ypubxu":
+			// an unsigned message naming X as its author, forwarded by the honest peer (accepted only under the lax policies)
+			m, data := mk(xid, "ypubxu", op.T)
+			m.Signature, m.Key = nil, nil
+			if Y.send(c16N, &pb.RPC{Publish: []*pb.Message{m}}) == nil && blacklisted {
+				tagged[data] = "unsigned, naming the blacklisted peer as author, forwarded by an honest peer after the moment"
 			}
 		case "ypub":
 			m, data := mk(yid, "ypub", op.T)
@@ -433,6 +450,7 @@ func c16RunInBubble(t *testing.T, c c16Case, res *vfResult) {
 	}
 	// always: one message of each kind at the end, and a late reconnect in half of the cases (by position parity)
 	exec("post", 100, c16Op{Kind: "ypubx"})
+	exec("post", 104, c16Op{Kind: "ypubxu"})
 	exec("post", 101, c16Op{Kind: "xpub"})
 	exec("post", 102, c16Op{Kind: "ypub"})
 	exec("post", 103, c16Op{Kind: "npub"})
